@@ -27,12 +27,13 @@ Section Driver.
   Let C := length (s_cpus sx).
   Let K := length (s_chans sx).
 
-  Definition env_of : cenv := {| cn_chans := s_chans sx; cn_nth := T; cn_ncpu := C; cn_alloc_ok := true |}.
+  Definition env_of : cenv :=
+    {| cn_chans := s_chans sx; cn_nth := T; cn_ncpu := C; cn_alloc_ok := true; cn_body := G.c_ST_TASK_BODY; cn_prog := G.c_ST_PROGRESSING |}.
 
   (* nothing registered yet *)
   Definition empty_state : cstate :=
     {| cs_bay := {| B.b_chans := []; B.b_dcbs := []; B.b_ecbs := []; B.b_muxes := []; B.b_dirty := [] |};
-       cs_reg := []; cs_pend := []; cs_narr := 0; cs_tracks := []; cs_mths := []; cs_mcpus := []; cs_ext := []; cs_inited := [] |}.
+       cs_reg := []; cs_pend := []; cs_narr := 0; cs_tracks := []; cs_mths := []; cs_mcpus := []; cs_ext := []; cs_inited := []; cs_mark := []; cs_bd := [] |}.
 
   (* the models of the trace in slot order (model.c: for i in 0..255) *)
   Definition models : list Z := filter (fun m => existsb (fun sp => cs_model sp =? m) (s_chans sx)) (zrange 0 256).
@@ -85,16 +86,28 @@ Section Driver.
         end
       end
     end.
+  (* ovni/mark.c mark_create (after scan_thread, not translated): when there are mark types, create_thread_chan of every
+     thread, then init_cpu of every CPU; called by model_ovni_create after model_thread_create / model_cpu_create *)
+  Definition marks_create (st : cstate) : result cstate :=
+    if Nat.eqb (length (mark_specs env_of)) 0 then Ok st else
+    match fold_res (fun st t => run1 (G.mark_create_thread_chan (Some tt) (Some tt) (Some t)) st) (seq 0 T) st with
+    | Err e => Err e
+    | Ok s1 => fold_res (fun st c => run1 (G.mark_init_cpu (Some tt) (Some tt) (Some c)) st) (seq 0 C) s1
+    end.
   Definition connect_all : result cstate :=
     match sys_state with Err e => Err e | Ok sys_st =>
     match fold_res (fun st m => match run1 (G.model_thread_create tt (Some m)) st with
-                                | Ok st1 => run1 (G.cpu_model_cpu_create tt (Some m)) st1
+                                | Ok st1 => match run1 (G.cpu_model_cpu_create tt (Some m)) st1 with
+                                            | Ok st2 => if m =? 79 then marks_create st2 else Ok st2
+                                            | Err e => Err e end
                                 | Err e => Err e end) models sys_st with
     | Err e => Err e
     | Ok st1 =>
       fold_res (fun st m => match run1 (G.model_thread_connect tt (Some m)) st with
                             | Ok st2 => match run1 (G.cpu_model_cpu_connect tt (Some m)) st2 with
-                                        | Ok st3 => set_defaults m st3
+                                        | Ok st3 => match set_defaults m st3 with
+                                                    | Ok st4 => if m =? 79 then run1 (G.mark_mark_connect tt) st4 else Ok st4
+                                                    | Err e => Err e end
                                         | Err e => Err e end
                             | Err e => Err e end) models st1
     end end.
@@ -103,21 +116,26 @@ Section Driver.
   (* channel k of s_chans is channel number (pos_in k) of its model *)
   Definition pos_in (k : nat) : nat :=
     length (filter (fun sp => cs_model sp =? cs_model (spec_of sx k)) (firstn k (s_chans sx))).
-  Definition mth_of (st : cstate) (t k : nat) : option mthobj :=
-    match extend_get env_of st (Some (false, t)) (cs_model (spec_of sx k)) with
-    | Some (VMth a) => nth_error (cs_mths st) a | _ => None end.
-  Definition mcpu_of (st : cstate) (c k : nat) : option mcpuobj :=
-    match extend_get env_of st (Some (true, c)) (cs_model (spec_of sx k)) with
-    | Some (VMcpu a) => nth_error (cs_mcpus st) a | _ => None end.
-  Definition th_track (st : cstate) (t k : nat) : ptr_track :=
-    match mth_of st t k with Some o => at_ptr_track (mt_track o) (Z.of_nat (pos_in k)) | None => None end.
-  Definition cpu_track (st : cstate) (c k : nat) : ptr_track :=
-    match mcpu_of st c k with Some o => at_ptr_track (mc_track o) (Z.of_nat (pos_in k)) | None => None end.
+  (* the mark channels (pseudo-model 1000) hang on the ovni ('O' = 79) objects *)
+  Definition is_mark (k : nat) : bool := cs_model (spec_of sx k) =? M_MARK.
+  Definition owner (k : nat) : Z := if is_mark k then 79 else cs_model (spec_of sx k).
+  Definition th_bases (st : cstate) (t k : nat) : ptr_chan * ptr_track :=
+    match extend_get env_of st (Some (false, t)) (owner k) with
+    | Some (VMth a) => if is_mark k then mark_get st (false, a)
+                       else match nth_error (cs_mths st) a with Some o => (mt_ch o, mt_track o) | None => (None, None) end
+    | _ => (None, None) end.
+  Definition cpu_base (st : cstate) (c k : nat) : ptr_track :=
+    match extend_get env_of st (Some (true, c)) (owner k) with
+    | Some (VMcpu a) => if is_mark k then snd (mark_get st (true, a))
+                        else match nth_error (cs_mcpus st) a with Some o => mc_track o | None => None end
+    | _ => None end.
+  Definition th_track (st : cstate) (t k : nat) : ptr_track := at_ptr_track (snd (th_bases st t k)) (Z.of_nat (pos_in k)).
+  Definition cpu_track (st : cstate) (c k : nat) : ptr_track := at_ptr_track (cpu_base st c k) (Z.of_nat (pos_in k)).
 
   (* the address behind each channel id of BayDefs.wire *)
   Definition wire_addrs (st : cstate) : list (option caddr) :=
     flat_map (fun t => map (fun w => Some (ASysTh t w)) (seq 0 3) ++
-                       map (fun k => match mth_of st t k with Some o => at_ptr_chan (mt_ch o) (Z.of_nat (pos_in k)) | None => None end) (seq 0 K) ++
+                       map (fun k => at_ptr_chan (fst (th_bases st t k)) (Z.of_nat (pos_in k))) (seq 0 K) ++
                        map (fun k => addr_track_ch (th_track st t k)) (seq 0 K)) (seq 0 T) ++
     flat_map (fun c => map (fun w => Some (ASysCpu c w)) (seq 0 5) ++ map (fun k => addr_track_ch (cpu_track st c k)) (seq 0 K)) (seq 0 C).
   (* the built mux id behind each mux id of BayDefs.wire (None: that track has no mux) *)
@@ -169,7 +187,8 @@ End Driver.
    are in slot order (slot_chans); Tables_gen.chanspecs itself is in models_register order (FINDING: for a trace with
    several models BayDefs.wire on DecodeDefs.mk_chans orders the cb_select's of a thread's state channel differently from
    the emulator; only the order of PRV lines inside one propagation depends on it) *)
-Definition slot_chans (l : list chanspec) : list chanspec := flat_map (fun m => filter (fun sp => cs_model sp =? m) l) (zrange 0 256).
+Definition slot_chans (l : list chanspec) : list chanspec :=
+  flat_map (fun m => filter (fun sp => cs_model sp =? m) l) (zrange 0 80 ++ [M_MARK] ++ zrange 80 256).   (* the marks right after the ovni model 'O' = 79 *)
 Definition with_chans (sx : static) (l : list chanspec) : static :=
   {| s_threads := s_threads sx; s_cpus := s_cpus sx; s_chans := l; s_lint := s_lint sx |}.
 
@@ -320,3 +339,114 @@ Proof.
   intros Hs He. apply wiring_ok_sound. pose proof sizes_checked as F. rewrite forallb_forall in F. specialize (F en He).
   rewrite forallb_forall in F. exact (F (nt, nc) Hs).
 Qed.
+
+(* ---- ovni/mark.c: the mark channels (pseudo-model 1000), created and connected inside the ovni model's hooks *)
+From OV Require Emu.MarkDefs.
+Definition mk_mtype (ty : Z) (stack : bool) : MarkDefs.mtype :=
+  {| MarkDefs.mt_type := ty; MarkDefs.mt_title := [77]; MarkDefs.mt_stack := stack; MarkDefs.mt_labels := [] |}.
+Definition mark_lists : list (list MarkDefs.mtype) :=
+  [[mk_mtype 1 true]; [mk_mtype 7 false]; [mk_mtype 1 true; mk_mtype 7 false]; [mk_mtype 5 false; mk_mtype 2 true; mk_mtype 9 true]].
+Definition mark_models : list (list Z) := [[DecodeDefs.M_OVNI]; [DecodeDefs.M_OVNI; DecodeDefs.M_NOSV]; all_models].
+Definition mark_sx (en : list Z) (ms : list MarkDefs.mtype) : static :=
+  {| s_threads := fam_threads; s_cpus := fam_cpus; s_chans := slot_chans (DecodeDefs.mk_chans en ++ MarkDefs.mark_chans ms); s_lint := false |}.
+
+Lemma marks_checked : forallb (fun en => forallb (fun ms => wiring_ok (mark_sx en ms)) mark_lists) mark_models = true.
+Proof. vm_compute. reflexivity. Qed.
+
+Theorem mark_wiring_from_source en ms : In en mark_models -> In ms mark_lists ->
+  exists st, connect_all (mark_sx en ms) = Ok st /\ normalize (mark_sx en ms) st = Some (B.wire (mark_sx en ms)).
+Proof.
+  intros He Hm. apply wiring_ok_sound. pose proof marks_checked as F. rewrite forallb_forall in F. specialize (F en He).
+  rewrite forallb_forall in F. exact (F ms Hm).
+Qed.
+
+(* ---- nosv/breakdown.c: the per-CPU breakdown pipeline, against BayBreakdownDefs *)
+From OV Require Emu.BayBreakdownDefs.
+Module BD := BayBreakdownDefs.
+
+Section Breakdown.
+  Variable sx : static.
+  (* model_nosv_breakdown_create / _connect for the (physical) CPU c, after the models connected: the generated create_cpu
+     (tr, tri), the generated connect_cpu (mux0, mux1, reselect, default), then sort_set_input on tri (the calling loops,
+     sort_init and the PRV registration of the sorted rows are not translated) *)
+  Definition nosv_cpu_of (st : cstate) (c : nat) : option nat :=
+    match extend_get (env_of sx) st (Some (true, c)) 86 with Some (VMcpu a) => Some a | _ => None end.
+  Definition breakdown_cpu (st : cstate) (c : nat) : result cstate :=
+    match nosv_cpu_of st c with
+    | None => Err E_TRAP
+    | Some a =>
+      match run1 sx (G.bd_create_cpu (Some tt) (Some a) (Z.of_nat c)) st with
+      | Err e => Err e
+      | Ok s1 => match run1 sx (G.bd_connect_cpu (Some tt) (Some a)) s1 with
+                 | Err e => Err e
+                 | Ok s2 => run1 sx (sort_set_input a) s2
+                 end
+      end
+    end.
+  Definition connect_all_bd : result cstate :=
+    match connect_all sx with
+    | Err e => Err e
+    | Ok st => fold_res breakdown_cpu
+                 (filter (fun c => negb (ci_virtual (nth c (s_cpus sx) {| ci_virtual := true; ci_loom := 0; ci_index := 0 |}))) (seq 0 (length (s_cpus sx)))) st
+    end.
+
+  (* the six channels of CPU c's pipeline, in the numbering of BayBreakdownDefs (SS TT IDLE TR TRI SINK), its three muxes
+     (mux0, mux1, the sort callback) renamed 0 1 2; PRV emit callbacks are not part of the pipeline model *)
+  Definition bd_project (st : cstate) (c : nat) : option B.bay :=
+    match nosv_cpu_of st c with
+    | None => None
+    | Some a =>
+      match nth_error (cs_mcpus st) a with
+      | None => None
+      | Some o =>
+        let trk i := addr_track_ch (at_ptr_track (mc_track o) i) in
+        let addrs := [trk G.c_CH_SUBSYSTEM; trk G.c_CH_TYPE; trk G.c_CH_IDLE; Some (ABd a 0); Some (ABd a 1); Some (ASink a)] in
+        match all_some (map (fun oa => match oa with Some x => id_of st x | None => None end) addrs),
+              all_some [bd_get st (a, 0%nat); bd_get st (a, 1%nat); bd_get st (a, 2%nat)] with
+        | Some sigma, Some mu =>
+          let bb := cs_bay st in
+          let ch_back (bid : nat) : option nat := find_idx (Nat.eqb bid) sigma 0 in
+          let mx_back (bid : nat) : option nat := find_idx (Nat.eqb bid) mu 0 in
+          let ren (d : B.dcb) : option B.dcb :=
+            match d with
+            | B.DSelect m => option_map B.DSelect (mx_back m)
+            | B.DInput m i => option_map (fun x => B.DInput x i) (mx_back m)
+            | B.DReselect m => option_map B.DReselect (mx_back m)
+            end in
+          match all_some (map (fun bid => all_some (map ren (nth bid (B.b_dcbs bb) []))) sigma),
+                all_some (map (fun bid => match nth_error (B.b_muxes bb) bid with
+                                          | Some mx =>
+                                            match ch_back (B.mx_sel mx), ch_back (B.mx_out mx), all_some (map ch_back (B.mx_ins mx)) with
+                                            | Some s', Some o', Some ins' =>
+                                              Some {| B.mx_init := B.mx_init mx; B.mx_sel := s'; B.mx_out := o'; B.mx_fun := B.mx_fun mx; B.mx_def := B.mx_def mx;
+                                                      B.mx_ins := ins'; B.mx_en := B.mx_en mx; B.mx_selected := B.mx_selected mx |}
+                                            | _, _, _ => None
+                                            end
+                                          | None => None
+                                          end) mu) with
+          | Some dcbs, Some muxes =>
+            Some {| B.b_chans := map (fun bid => nth bid (B.b_chans bb) (B.mk_chan false false false false)) sigma;
+                    B.b_dcbs := dcbs; B.b_ecbs := map (fun _ => []) sigma; B.b_muxes := muxes; B.b_dirty := [] |}
+          | _, _ => None
+          end
+        | _, _ => None
+        end
+      end
+    end.
+End Breakdown.
+
+Definition bd_sx : static :=
+  {| s_threads := fam_threads; s_cpus := fam_cpus; s_chans := slot_chans (DecodeDefs.mk_chans [DecodeDefs.M_OVNI; DecodeDefs.M_NOSV]); s_lint := false |}.
+
+Definition bd_expected : B.bay := BD.bd_bay true G.c_ST_TASK_BODY G.c_ST_UNKNOWN_SS G.c_ST_PROGRESSING BD.bd_init.
+Definition bd_fam_sx (en : list Z) : static :=
+  {| s_threads := fam_threads; s_cpus := fam_cpus; s_chans := slot_chans (DecodeDefs.mk_chans en); s_lint := false |}.
+Definition bd_models : list (list Z) := [[DecodeDefs.M_OVNI; DecodeDefs.M_NOSV]; all_models].
+
+Theorem breakdown_wiring_from_source en c : In en bd_models -> In c [0; 1]%nat ->
+  match connect_all_bd (bd_fam_sx en) with Ok st => bd_project (bd_fam_sx en) st c | Err _ => None end = Some bd_expected.
+Proof. intros [<-|[<-|[]]] [<-|[<-|[]]]; vm_compute; reflexivity. Qed.
+
+Lemma bd_constants : G.c_ST_TASK_BODY = 11 /\ G.c_ST_UNKNOWN_SS = 2 /\ G.c_ST_PROGRESSING = 100 /\
+  G.c_CH_SUBSYSTEM = 4 /\ G.c_CH_TYPE = 2 /\ G.c_CH_IDLE = 6.
+Proof. repeat split. Qed.
